@@ -71,7 +71,7 @@ func (prop) Describe() core.Description {
 		RealComponents: []string{"go-geom root package: Polygon, MultiPoint, MultiLineString, MultiPolygon, GeometryCollection (Push, accessors, Coords, Reverse, Swap, Clone, SetSRID, SetLayout) and the part constructors"},
 		StubComponents: []string{"the caller (seeded operation history, including rejected and self-aliasing operations)"},
 		FaultKinds:     []string{"rejected-push", "rejected-variadic-push", "self-alias-push"},
-		Probes:         []string{"probe:reserve-between-pushes", "probe:one-object-twice-in-a-variadic-push", "probe:polygon(i)-after->=2-empty-polygons", "probe:push-after-leading-empties", "probe:reject-after-nonempty", "probe:reverse-with-empty-part", "probe:variadic-reject-at-j>0", "probe:swap", "probe:clone", "probe:same-stride-wrong-layout", "probe:empty-part", "probe:layout>4", "probe:persistent-polygon-push", "probe:persistent-polygon-pushed-into-receiver", "probe:push-onto-accessor-part", "probe:pushed-part-overwritten-afterwards"},
+		Probes:         []string{"probe:reserve-between-pushes", "probe:ring-of-the-next-polygon-pushed-onto-the-previous", "probe:one-object-twice-in-a-variadic-push", "probe:polygon(i)-after->=2-empty-polygons", "probe:push-after-leading-empties", "probe:reject-after-nonempty", "probe:reverse-with-empty-part", "probe:variadic-reject-at-j>0", "probe:swap", "probe:clone", "probe:same-stride-wrong-layout", "probe:empty-part", "probe:layout>4", "probe:persistent-polygon-push", "probe:persistent-polygon-pushed-into-receiver", "probe:push-onto-accessor-part", "probe:pushed-part-overwritten-afterwards"},
 	}
 }
 
@@ -147,7 +147,7 @@ func (prop) Decode(raw []byte) (any, error) {
 			if err := validPart(op.Part, 0); err != nil {
 				return nil, err
 			}
-		case "pushx", "acc":
+		case "pushx", "acc", "xnext":
 			if s.Kind != mgeom.MPg || op.I < 0 || op.J < 0 || op.J > 1 {
 				return nil, fmt.Errorf("bad %s", op.K)
 			}
@@ -261,6 +261,11 @@ func (prop) Generate(r *prng.Rand, phase string) any {
 				op.K = "acc"
 				op.I = r.Intn(8)
 				op.J = r.Intn(2)
+				if r.Chance(0.35) {
+					// ... and at once its right-hand neighbour's first ring is pushed onto it
+					s.Ops = append(s.Ops, op)
+					op = Op{K: "xnext", R: op.R, I: op.J}
+				}
 			}
 			s.Ops = append(s.Ops, op)
 			continue
@@ -680,6 +685,7 @@ func (prop) Execute(scAny any, phase string, log *core.Log) core.Result {
 	var xs [2]*geom.Polygon
 	var xm [2]*mgeom.Geom // model: a Polygon with its rings
 	xalias := [2]int{-1, -1} // receiver whose storage X[k] was sliced from, or -1
+	xidx := [2]int{-1, -1}   // ... and which polygon of it X[k] was, as long as X[k] is untouched since
 	tainted := [2]bool{}     // a receiver whose accessor-returned part was pushed onto (documented storage sharing)
 	dropAliases := func(r int) {
 		for k := 0; k < 2; k++ {
@@ -736,6 +742,7 @@ func (prop) Execute(scAny any, phase string, log *core.Log) core.Result {
 			if xs[k] == nil {
 				xs[k], xm[k], xalias[k] = geom.NewPolygon(l), &mgeom.Geom{T: mgeom.Pg, L: s.L, P: [][][]mgeom.Coord{{}}}, -1
 			}
+			xidx[k] = -1
 			pm := op.Part.Clone().Norm()
 			pg, err := mgeom.Build(pm)
 			if err != nil {
@@ -779,6 +786,52 @@ func (prop) Execute(scAny any, phase string, log *core.Log) core.Result {
 					return res
 				}
 			}
+		case "xnext":
+			// a ring moved between neighbours: X[k] is polygon i of a receiver
+			// (a view of its array), the ring pushed onto it is the first ring
+			// of polygon i+1 of the same receiver - storage that lies directly
+			// behind X[k]'s own and inside its capacity
+			k := op.I % 2
+			ra := xalias[k]
+			if xs[k] == nil || ra < 0 || xidx[k] < 0 || tainted[ra] || s.L == 0 {
+				continue
+			}
+			i := xidx[k]
+			parent := mod[ra]
+			if i+1 >= len(parent.Parts) || len(parent.Parts[i+1].P[0]) == 0 || len(parent.Parts[i+1].P[0][0]) == 0 {
+				continue
+			}
+			ringModel := parent.Parts[i+1].P[0][0]
+			var err error
+			if p := core.Guard(func() { err = xs[k].Push(lib[ra].mpg.Polygon(i + 1).LinearRing(0)) }); p != "" {
+				res.Fail("panic", "panic:Polygon:"+core.PanicSite(p), "%s: pushing the neighbouring polygon's ring onto Polygon(%d) panicked: %s", after, i, p)
+				return res
+			}
+			res.Steps++
+			res.Count("probe:ring-of-the-next-polygon-pushed-onto-the-previous", 1)
+			log.Addf("%s X%d (polygon %d of %s) gets ring 0 of polygon %d err=%v", after, k, i, names[ra], i+1, err)
+			if err != nil {
+				res.Fail("push-refused", "push-refused:Polygon", "%s: Push of a matching ring failed: %v", after, err)
+				return res
+			}
+			ring := make([]mgeom.Coord, len(ringModel))
+			for j := range ringModel {
+				ring[j] = append(mgeom.Coord(nil), ringModel[j]...)
+			}
+			xm[k].P[0] = append(xm[k].P[0], ring)
+			xidx[k] = -1
+			// as with xpush: the receiver's array was written (here with the
+			// values it held), nothing more is asked of it or of its other views
+			tainted[ra] = true
+			for j := 0; j < 2; j++ {
+				if j != k && xalias[j] == ra {
+					xs[j], xm[j], xalias[j] = nil, nil, -1
+				}
+			}
+			if obs, oerr := mgeom.Observe(xs[k]); oerr != nil || mgeom.Diff(obs, xm[k]) != "" {
+				res.Fail("part-differs", "part-differs:Polygon:neighbour-ring", "%s: after pushing ring 0 of polygon %d onto polygon %d of the same MultiPolygon the polygon is %s (%v), expected %s", after, i+1, i, obs, oerr, xm[k])
+				return res
+			}
 		case "pushx":
 			k := op.I % 2
 			if xs[k] == nil || tainted[op.R] {
@@ -810,6 +863,7 @@ func (prop) Execute(scAny any, phase string, log *core.Log) core.Result {
 			}
 			res.Steps++
 			xs[op.J], xm[op.J], xalias[op.J] = q, mv.Parts[i].Clone(), op.R
+			xidx[op.J] = i
 			xm[op.J].S = 0
 			log.Addf("%s X%d := %s.Polygon(%d)", after, op.J, names[op.R], i)
 		case "push", "pushself":
